@@ -253,6 +253,7 @@ int ILLsymboltab_getindex (
 	if (k)
 	{
 		QSlog("Symbol %s is not in table", name);
+		rval = 1;
 		ILL_CLEANUP;
 	}
 	k = h->the_index;
